@@ -75,3 +75,11 @@ func tailLines(s string, n int) string {
 	}
 	return strings.Join(l, "\n")
 }
+
+func headTail(s string, h, t int) string {
+	l := strings.Split(strings.TrimRight(s, "\n"), "\n")
+	if len(l) <= h+t {
+		return strings.Join(l, "\n")
+	}
+	return strings.Join(l[:h], "\n") + "\n…\n" + strings.Join(l[len(l)-t:], "\n")
+}
